@@ -14,6 +14,8 @@ import GrcovModel.Drv.C14Gcno
 import GrcovModel.Drv.MainGlue
 import GrcovModel.Drv.C03JsonBytes
 import GrcovModel.Drv.C05Cli
+import GrcovModel.Drv.C02Run
+import GrcovModel.Drv.C03Html
 open Grcov.Drv
 
 def step (line : String) : String :=
@@ -61,6 +63,8 @@ def step (line : String) : String :=
   | "c03.json.ade" :: args => handleJsonAde args
   | "c20.llvmtree.find" :: args => handleLlvmTreeFind args
   | "cli.run" :: args => handleCliRun args
+  | "run.all" :: args => Grcov.Drv.RunAll.handleRunAll args
+  | "c03.htmlb" :: args => Grcov.Drv.C03Html.handle args
   | _ => "bad-op"
 
 partial def loop (h : IO.FS.Stream) (out : IO.FS.Stream) : IO Unit := do
